@@ -105,9 +105,13 @@ func genMOpts(t *rapid.T) c06.Opts {
 // GenValue draws a value case.
 func GenValue(t *rapid.T) VCase {
 	c := VCase{Lean: rapid.IntRange(0, 3).Draw(t, "lean") == 0, Opts: genMOpts(t)}
-	c.Top = rapid.SampledFrom([]string{"", "", "", "ptr", "recs", "map"}).Draw(t, "top")
+	c.Top = rapid.SampledFrom([]string{"", "", "", "", "", "", "ptr", "ptr", "recs", "recs", "map", "map", "bytes", "time", "text", "int", "float", "str"}).Draw(t, "top")
 	budget := rapid.SampledFrom([]int{200, 1000, 6000, 6000, 16000}).Draw(t, "budget")
-	c.Val = genRecD(t, 1, &budget)
+	if leafTop(c.Top) {
+		c.Val = RecD{Pad: rapid.IntRange(0, 5000).Draw(t, "leafsize")}
+	} else {
+		c.Val = genRecD(t, 1, &budget)
+	}
 	if rapid.IntRange(0, 5).Draw(t, "bigfirst") == 5 {
 		// a first member larger than the buffer, then everything else
 		c.Val.Pad = rapid.SampledFrom([]int{4097, 5000, 6000, 9000, 12000}).Draw(t, "bigpad") + rapid.IntRange(0, 40).Draw(t, "bigdelta")
